@@ -1,5 +1,6 @@
 import MlModel.Model.Stage
 import MlModel.Lemmas.StageInv
+import MlModel.Generated.StageTurn
 /-!
 # C16 — interleaved stages: enqueuer registration happens-before the worker's pulling
 
@@ -94,5 +95,49 @@ example : ∃ s, Reach {} (St.init [10] 2) s ∧
   reach_witness
     [.produce, .closeInput, .schedule 0, .schedule 1, .created 0, .pull 0, .pullEnd 0, .forward 0, .finish 0,
      .consume, .consumerEnd, .created 1] _ (by decide)
+
+/-! ## The configuration of the code, read off the source (package C16S)
+
+`Generated/StageTurn.lean` is written on every check run by `translate/stage_turn.py` (Python `ast`) from
+`CourierClient.async_iter` and `AsyncIteratorQueue.async_enqueue_from_iterator`. -/
+
+/-- **No suspension point between the kick-off RPC and `_start_enqueue()`** (generated obligation): in
+`async_iter` the kick-off statement `self.call(.., return_immediately=True)` and everything after it contain no
+`await` / `async for` / `async with`; in `async_enqueue_from_iterator` the statement that awaits `iterator`
+contains that one suspension point only, `self._start_enqueue()` follows it at the top level of the body and no
+suspension point lies between them.  Before the kick-off there is one (phase `creating` of the model).  This
+is the hypothesis `ackAwait = false` of the theorems above, resp. the turn atomicity of `stepT`; the seeded
+change C16-m1 (`await` the acknowledgement) makes `awaitsAfterKickoff = 1` and breaks this theorem. -/
+theorem C16_stage_turn_no_suspension_point :
+    Generated.StageTurn.kickoffFound = true ∧ Generated.StageTurn.isCoroutine = true ∧
+    Generated.StageTurn.registerAfterIterator = true ∧
+    Generated.StageTurn.awaitsAfterKickoff = 0 ∧ Generated.StageTurn.awaitsInIteratorStmt = 1 ∧
+    Generated.StageTurn.awaitsBeforeRegister = 0 ∧ 1 ≤ Generated.StageTurn.awaitsBeforeKickoff := by
+  decide
+
+/-- **The fused step is a turn of the thread-granular LTS.**  Whenever the `ackAwait = false` LTS takes its
+`created w` step (kick-off and registration in one step) from a state in which no coroutine is mid-turn, the
+thread-granular LTS `stepT` takes `created w` (kick-off) and then `ack w` (registration) and reaches the same
+state: every execution of the LTS the theorems above are about is an execution of `stepT`. -/
+theorem C16_stage_fused_is_turn {w : Nat} {s s' : St} (hm : s.midTurn = false)
+    (h : step { ackAwait := false } s (.created w) = some s') :
+    ∃ m, stepT s (.created w) = some m ∧ stepT m (.ack w) = some s' := by
+  simp only [step] at h
+  cases hx : s.ws[w]? with
+  | none => simp [hx] at h
+  | some x =>
+    simp only [hx] at h
+    by_cases hp : x.phase = .creating
+    · simp only [hp, if_true] at h
+      simp at h
+      subst h
+      have hlt : w < s.ws.length := by
+        rcases Nat.lt_or_ge w s.ws.length with h1 | h1
+        · exact h1
+        · simp [List.getElem?_eq_none h1] at hx
+      refine ⟨{ s with ws := s.ws.set w { x with phase := .kicked, pulling := true } }, ?_, ?_⟩
+      · simp [stepT, hm, step, hx, hp]
+      · simp [stepT, Label.isLoop, step, hlt, St.register]
+    · simp [hp] at h
 
 end MlModel.C16
